@@ -24,7 +24,7 @@ def classify(rec, clauses):
 
 def sig(rec, clauses):
     k = rec.get("k")
-    comp = {"mm": "mm_reader", "bin": "read_dense" if rec.get("dense") else "read_crs", "bits": "roundtrip", "usedvec": "reader-output-vectors",
+    comp = {"mm": "mm_reader", "bin": "read_dense" if rec.get("dense") else "read_crs", "bits": "roundtrip", "usedvec": "reader-output-vectors", "mtread": "reader-threads",
             "mmkind": "mm_reader"}.get(k, str(k))
     s = {"component": comp, "class": classify(rec, clauses)}
     for f in ("fault", "where", "fid", "type", "cont", "fmt", "hist"):
@@ -79,12 +79,13 @@ def run(c):
 
     runs = [("mmfault", rio, env, 4000), ("binfault", rio, env, 4000), ("rt", rio, env, 4000), ("bits", rio, env, 4000), ("usedvec", rio, env, 4000),
             ("usedvec", rsan, dict(env, **SAN_ENV), 4000),
+            ("mtread", rio, dict(env, OMP_NUM_THREADS=4, OMP_WAIT_POLICY="passive"), 4000),
             ("mmfault", rsan, dict(env, **SAN_ENV), 4000), ("binfault", rsan, dict(env, **SAN_ENV), 4000)]
 
     def rec(i):
         mode, binary, e, chunk = runs[i]
         return c.record(binary, [mode], env=e, out=c.path("io-%d-%s.ndjson" % (i, mode)), timeout=1500)
-    traces = c.parallel([(lambda i=i: rec(i)) for i in range(len(runs))], max_workers=8)
+    traces = c.parallel([(lambda i=i: rec(i)) for i in range(len(runs))], max_workers=9)
 
     # the transcription of the pinned tree (Checked = FALSE) is expected to violate FaultInv: a model-level
     # finding, turned into a verdict only by the recorded executions below
